@@ -387,6 +387,32 @@ func bridgeFacts(c *Ctx) error {
 	}
 	fmt.Fprintf(&sb, "def blacklistNormalised : Bool := %v\n\n", strings.Contains(blk, "normalizeEthAddress(address)"))
 
+	// peggy-token list: how AddPeggyToken and ExistsPeggyToken compare token names.  Every `if` condition of the two
+	// functions is listed; any call into package strings (EqualFold, ToLower, HasPrefix, Contains …) or bytes makes the
+	// entry "unknown: …", which fails the Lean obligation.
+	for _, g := range [][2]string{{"AddPeggyToken", "addPeggyTests"}, {"ExistsPeggyToken", "existsPeggyTests"}} {
+		var tests []string
+		if fd := FindFunc(ekeeper, "Keeper", g[0]); fd != nil {
+			ast.Inspect(fd.Body, func(m ast.Node) bool {
+				switch x := m.(type) {
+				case *ast.IfStmt:
+					tests = append(tests, c.Src(x.Cond))
+				case *ast.CallExpr:
+					if se, ok := x.Fun.(*ast.SelectorExpr); ok {
+						if id, ok := se.X.(*ast.Ident); ok && (id.Name == "strings" || id.Name == "bytes" || id.Name == "unicode") {
+							tests = append(tests, "unknown: "+c.Src(x))
+						}
+					}
+				}
+				return true
+			})
+		} else {
+			tests = append(tests, "unknown: no such function")
+		}
+		fmt.Fprintf(&sb, "def %s : List String := %s\n", g[1], leanList(tests))
+	}
+	sb.WriteString("\n")
+
 	sb.WriteString("def unreadable : List String := " + leanList(unreadable) + "\n\nend Sif.Generated.BridgeConsts\n")
 	return c.WriteLean("BridgeConsts", sb.String())
 }
